@@ -1,19 +1,135 @@
-"""Which engines decide which property, with what budgets (read by ./check)."""
+"""Which engines decide which property, with what budgets (read by ./check and gen_manifest.py)."""
+
+LS = "lockstep: scripted history on the real cache (virtual clock, manually fed cleanup ticks at exact instants, wait() after every step), " \
+     "observation trace (results, look-ups of the whole key universe, callbacks, policy events, snapshot of store/policy/expiry index, metrics) " \
+     "checked offline by an executable reference model; distinct by hash of (steps, config); non-trivial = history with ticks or updates"
+HO = "hostile: 2-16 client threads on few keys, mixed operations, tiny to default buffers, seeded delays at the yield points, time-keeper thread " \
+     "advancing the virtual clock and feeding ticks; per-call records stamped by one logical clock; offline history checkers and invariants at the quiescent end; " \
+     "distinct by (seed, threads, keys, config); non-trivial = history with evictions/expiries or replaced values"
+
+
+def ls(prop, q=300, t=4000, shards_q=4, shards_t=16, flavors=None):
+    args = ["--quick-n", str(q), "--thorough-n", str(t)]
+    if flavors:
+        args += ["--flavors", flavors]
+    return dict(engine="lockstep", shards=dict(quick=shards_q, thorough=shards_t), args=args)
+
+
+def ho(prop, q=40, t=600, shards_q=4, shards_t=16, flavors=None):
+    args = ["--quick-n", str(q), "--thorough-n", str(t)]
+    if flavors:
+        args += ["--flavors", flavors]
+    return dict(engine="hostile", shards=dict(quick=shards_q, thorough=shards_t), args=args)
+
+
+ASYNC_ALL = "tokio-mt,tokio-ct,async-std,thread-per-task"
 
 PLAN = {
+    "C01": dict(
+        stages=[ls("C01"), ho("C01")],
+        rule=LS + " || " + HO,
+        clauses=["policy observer log replayed step by step (emitted under the policy lock): used == sum of per-key charges at every add/update/remove/clear; "
+                 "oversize never admitted; every admission of a new key leaves used <= max_cost; victims' costs == their charges; update delta == new - old; "
+                 "update_max_cost in effect for every later add; max_cost() == last value stored",
+                 "lockstep: excess of used over max_cost only grows in update / update_max_cost steps; admitted only with room after the observed evictions"],
+        minimum=dict(quick=dict(policy_events_checked=20000, policy_admissions=1000, ls_histories=200, ho_histories=40)),
+        assumptions=["equalities are decided on histories whose true sum of charges fits in i64 (beyond that an i64 total has no defined answer); costs near i64::MAX are used for survival and oversize clauses"],
+    ),
+    "C02": dict(
+        stages=[ho("C02", q=60), ls("C02")],
+        rule=HO + " || " + LS,
+        clauses=["R1 returned value carries the looked-up key", "R2 written by an insert that returned true or an in-place write, not from the future",
+                 "R3a no value written before a remove that was applied (later wait() Ok, no clear overlapping)", "R3a' removal of an observably resident value is immediate",
+                 "R3b no value written before a clear() that returned before the look-up began", "R4 an update still resident at the end is returned by every look-up after it",
+                 "never a value already handed to a callback", "R5 (lockstep) exactly the last value written; update path taken inside the call"],
+        minimum=dict(quick=dict(ho_c02_lookups_checked=20000, ho_c02_r3_candidates=5000, ls_histories=200)),
+        assumptions=["registers are not linearizable by design (a new key becomes visible asynchronously): the clauses above are what the statement promises"],
+    ),
+    "C03": dict(
+        stages=[ls("C03", q=400)],
+        rule=LS,
+        clauses=["visible iff now - t_insert < d", "get_ttl == ValueRef::ttl == d - (now - t_insert) exactly; Duration::MAX without TTL", "re-insert replaces the deadline (stored ttl/created compared)",
+                 "TTL grid: 1 ms .. 100 h, insert offsets 0/1ns/.499/.5/.999999999 s, clock aimed at d-1ns/d/d+1ns and second boundaries"],
+        minimum=dict(quick=dict(ls_histories=300, ls_ticks=10000, ls_reclaimed_by_ttl=500)),
+        assumptions=["time is the hook's virtual clock (type substituted for SystemTime in src/ttl.rs; every line of Time stays live)"],
+    ),
+    "C04": dict(
+        stages=[ls("C04", q=400)],
+        rule=LS + "; max_cost == sum of the per-key charges exactly (tight) so nothing may ever be refused or evicted",
+        clauses=["every key: presence and value id equal the model after every step", "no on_reject, on_evict only for elapsed TTLs", "insert returns true", "nothing swept before its deadline"],
+        minimum=dict(quick=dict(ls_histories=300, ls_updates=3000, ls_ticks=10000)),
+        assumptions=[],
+    ),
+    "C05": dict(
+        stages=[ls("C05", q=400)],
+        rule=LS + "; cleanup intervals 0.1/0.25/0.5/1/2(default, read back from the hook)/3/5 s, every tick phase",
+        clauses=["never early: reclaimed only with deadline <= tick time", "bounded delay: deadline + 1 s + interval <= tick time => gone from store, policy, len()", "on_evict exactly once with id and charged cost", "charge released"],
+        minimum=dict(quick=dict(ls_reclaimed_by_ttl=1000, ls_ticks=10000, ls_interval_ms_2000=50)),
+        assumptions=["ticks are delivered (never skipped) at phase + n*interval of the virtual clock"],
+    ),
+    "C06": dict(
+        stages=[ho("C06", q=60), ls("C06")],
+        rule=HO + "; histories in which a call returned Err are excluded (the statement's exemption) and counted",
+        clauses=["keys(store) == keys(policy) at the quiescent end", "len() == number of resident entries", "same invariant after every lockstep step"],
+        minimum=dict(quick=dict(ho_c06_evaluations=60, ho_evictions_and_expiries=2000, ls_histories=200)),
+        assumptions=["quiescent = clients joined, wait() Ok, tick handled, wait() Ok, hook counters stable across the snapshot"],
+    ),
     "C07": dict(
-        stages=[dict(engine="policy", shards=dict(quick=4, thorough=16), scale=dict(quick=1.0, thorough=1.0))],
+        stages=[dict(engine="policy", shards=dict(quick=4, thorough=16)), ls("C07")],
         rule="one case = one add(key,cost) on the real LFUPolicy (real worker thread) from a randomly built state "
              "(residents, costs, max_cost incl. lowered below used, popularity shaped by pushed look-up batches); "
-             "non-trivial = the add entered the eviction path (room < 0); distinct by (round, step, key, cost, max_cost, used, residents)",
+             "non-trivial = the add entered the eviction path (room < 0); distinct by (round, step, key, cost, max_cost, used, residents) || " + LS,
         clauses=["oversize refused cleanly", "resident key = cost update only", "room >= 0 => admitted, no victim, no sampling",
                  "loop only while room < 0 (room recomputed)", "sample = 5 candidates or all residents", "candidates are residents with their cost or evicted earlier in this call",
                  "victim = least popular candidate (estimates recomputed through the facade, not taken from the observer)",
                  "victim no more popular than newcomer", "reject iff newcomer strictly less popular than sample minimum", "returned victims == observed victims",
-                 "post-state == pre-state - victims (+ newcomer iff admitted); room >= 0 after admission"],
-        minimum=dict(quick=dict(c07_loop_iterations=200, c07_rejections=20, c07_multi_iteration_adds=10)),
-        assumptions=["policy worker drained (kept == applied) before each add, so estimates are stable while the oracle reads them",
-                     "the observer hook reports the sample and victim the loop really used (hook is add-only, emitted under the policy lock)"],
+                 "post-state == pre-state - victims (+ newcomer iff admitted); room >= 0 after admission",
+                 "cache level: victims reach on_evict with their charge, refused items reach on_reject, eviction only while room is lacking"],
+        minimum=dict(quick=dict(c07_loop_iterations=2000, c07_rejections=200, c07_multi_iteration_adds=100, c07_iterations_with_5_residents=100, ls_evicted_for_room=200)),
+        assumptions=["policy worker drained (kept == applied) before each add, so estimates are stable while the oracle reads them"],
+    ),
+    "C08": dict(
+        stages=[ho("C08", q=60), ls("C08")],
+        rule=HO + " || " + LS,
+        clauses=["every accepted value: exactly one of {resident, on_exit, on_evict, on_reject, overwritten in place}", "none of them only if dropped inside a clear()/close() call",
+                 "never two", "no look-up returns a value after its callback", "no value leaked after the cache and its workers are gone", "lockstep: callback kind matches the cause"],
+        minimum=dict(quick=dict(ho_c08_values_accounted=20000, ho_callbacks=10000, ls_histories=200)),
+        assumptions=["collision-free keys; no ValueRefMut::write (drops the replaced value in the caller by design)"],
+    ),
+    "C09": dict(
+        stages=[ls("C09", q=400)],
+        rule=LS + "; validators: never / only-greater / new-id-even / value-dependent; Coster on",
+        clauses=["insert_if_present on absent => false, no callback, cache unchanged", "on resident => update of value and cost", "vetoed insert / insert_with_ttl / insert_if_present: value and remaining TTL unchanged, still reclaimed at the old deadline",
+                 "expired-but-unswept key: both outcomes accepted (the statement does not decide it)"],
+        minimum=dict(quick=dict(ls_vetoes=1000, ls_updates=2000)),
+        assumptions=[],
+    ),
+    "C10": dict(
+        stages=[ho("C10", q=60), dict(engine="waitrace", shards=dict(quick=4, thorough=16), args=["--quick-n", "240", "--thorough-n", "4000"])],
+        rule=HO + " (barrier mode: disjoint keys per thread, ample capacity, each batch followed by wait() and an immediate check of the thread's own keys) || "
+             "termination: waiters vs close / clear / both, readers and writers on one shard; every flavour; verdict from state (worker exit counters, thread states), never from a timeout",
+        clauses=["after wait() Ok: a key written exactly once since the previous barrier holds that value and is charged / is gone and uncharged", "keys written several times: store and policy agree",
+                 "batches overlapping a clear() or following an Err are not judged (counted)", "wait() returns (Ok or Err) under races with clear() and close(); Err only explainable by a full buffer or closing cache",
+                 "a blocked waiter with an exited processor, or a process in which no thread can run, is a violation with stacks"],
+        minimum=dict(quick=dict(ho_c10_exact_key_verdicts=3000, lc_wait_ok=50000, lc_waitrace_scenarios=200)),
+        assumptions=["several writes to one key between two barriers are applied out of program order by design (updates at once, queued removes and first inserts later)"],
+    ),
+    "C11": dict(
+        stages=[ls("C11", q=400), ho("C11", q=60)],
+        rule=LS + " || " + HO,
+        clauses=["after clear(): every key absent, len 0, used 0, counters zero, histogram empty", "afterwards exactly the fresh-cache model, incl. keys re-used with another TTL or none across their old expiry seconds",
+                 "concurrent: nothing written before a completed clear() is returned afterwards; barrier clauses for inserts begun after clear() returned"],
+        minimum=dict(quick=dict(ls_clears=1000, ho_op_clear=300)),
+        assumptions=[],
+    ),
+    "C12": dict(
+        stages=[dict(engine="close", shards=dict(quick=4, thorough=16), args=["--quick-n", "480", "--thorough-n", "8000"])],
+        rule="scenarios x flavours (sync, tokio multi-thread, tokio current-thread, async-std, thread-per-task): close idle / after a history / 2-8 concurrent closers / "
+             "try_* + wait + clear + get_ttl racing the close / drop without close / close with a pending buffer; distinct by scenario description",
+        clauses=["no panic, no hang (state-based)", "after a close() returned Ok: insert false, look-ups None, remove/clear/wait/close Ok, no effect on the cache", "both workers exit (guard counters); OS thread count back to baseline (sync); spawned tasks finished (async)",
+                 "same when all handles are dropped without close()"],
+        minimum=dict(quick=dict(lc_close_scenarios=480)),
+        assumptions=[],
     ),
     "C13": dict(
         stages=[dict(engine="sketch", shards=dict(quick=4, thorough=16))],
@@ -34,14 +150,62 @@ PLAN = {
         clauses=["every added hash present right after its add", "all hashes added so far present at doubling checkpoints and at the end",
                  "false-positive count over 20000 uniformly random never-added probes <= 3p*N + 7 sigma", "fresh filter empty", "reset/clear: no hash present, zero bits set", "usable after reset"],
         minimum=dict(quick=dict(c14_adds=10000, c14_random_probes=200000)),
-        assumptions=["rate clause decided for uniformly random probes only (for probes correlated with a structured set no Bloom filter has a bound)"],
+        assumptions=["rate clause decided for uniformly random probes (for probes correlated with a structured added set no Bloom filter has a bound; those rates are measured and reported)"],
+    ),
+    "C15": dict(
+        stages=[ls("C15", q=300), ho("C15", q=40)],
+        rule=LS + "; buffer_items 0/1/2/3/64, num_counters 64/100 (aging resets modelled exactly from the Applied events) and 100000 || " + HO + " (readers mode)",
+        clauses=["flushed batches are exactly the look-up stream cut every buffer_items keys (hits and misses)", "estimate(k) >= min(look-ups of k applied since the last aging reset / clear, 16)",
+                 "gets_kept + gets_dropped == keys in flushed batches; gets_kept == keys in kept batches", "kept batches == applied batches at quiescence", "a batch is dropped only with a full policy queue (never on the async policy)"],
+        minimum=dict(quick=dict(ls_estimate_checks=50000, ls_lookups_scripted=20000, ho_batches_flushed=2000)),
+        assumptions=["estimates are read through the hook between two stamps of the logical clock; a check is skipped when an Applied/Clear event falls between them"],
+    ),
+    "C16": dict(
+        stages=[ls("C16", q=400)],
+        rule=LS + "; explicit costs 1..9, 2^31, 2^40, 2^62, i64::MAX and neighbours, max_cost +-1; Coster valuation when the cost is 0; ignore_internal_cost both ways",
+        clauses=["per-key charge in the policy == explicit cost (or Coster value when 0) + item_size unless ignored", "updates re-charge", "Item.cost in on_evict / on_reject == charge", "cost metrics move by the same amounts (C17 clauses)"],
+        minimum=dict(quick=dict(ls_histories=300, ls_updates=2000)),
+        assumptions=["value type sizes: one value type (Tracked) at cache level; the overhead constant is the hook-reported item_size, required > 0 and identical for every insert"],
+    ),
+    "C17": dict(
+        stages=[ls("C17", q=400), ho("C17", q=40)],
+        rule=LS + " (tight capacity: evictions and rejections occur) || " + HO,
+        clauses=["hits + misses == look-ups made since the last clear (interval bounds when calls overlap a clear)", "keys_added - keys_evicted == charged entries", "cost_added - cost_evicted == used (wrapping)",
+                 "sets_dropped == inserts that returned false", "sets_rejected == popularity rejections seen by the policy observer", "all zero after clear", "ratio() == hits/(hits+misses)",
+                 "life-expectancy histogram: one sample per eviction/expiry of a tracked entry, in the bucket of its virtual lifetime; Count == sum of buckets"],
+        minimum=dict(quick=dict(ls_histories=300, ls_evicted_for_room=300, ho_c17_evaluations=100)),
+        assumptions=[],
     ),
     "C18": dict(
-        stages=[dict(engine="keys", shards=dict(quick=1, thorough=4))],
-        rule="(a) DefaultKeyBuilder on random strings / byte vectors / u64 through every borrow form; (b) TransparentKeyBuilder exhaustively for bool,u8,i8,u16,i16 and on boundaries, powers of two and random values for the wider types",
+        stages=[dict(engine="keys", shards=dict(quick=1, thorough=4)), ls("C18")],
+        rule="(a) DefaultKeyBuilder on random strings / byte vectors / u64 through every borrow form; (b) TransparentKeyBuilder exhaustively for bool,u8,i8,u16,i16 and on boundaries, powers of two and random values for the wider types; "
+             "(c) " + LS + " with a key builder that maps keys 2i and 2i+1 to one index with distinct non-zero conflicts",
         clauses=["same (index, conflict) for String/&str, Vec<u8>/&[u8], u64 by value/reference, repeated", "build_key == (hash_index, hash_conflict)",
-                 "TransparentKeyBuilder: (x as u64, 0)", "distinct integer keys => distinct indices"],
-        minimum=dict(quick=dict(c18_default_builder_checks=10000, c18_transparent_exhaustive_u16=65536)),
+                 "TransparentKeyBuilder: (x as u64, 0)", "distinct integer keys => distinct indices",
+                 "under index collision: no operation on one key returns, overwrites or removes the other key's value"],
+        minimum=dict(quick=dict(c18_default_builder_checks=10000, c18_transparent_exhaustive_u16=65536, ls_histories=200)),
+        assumptions=["under index collisions the policy (keyed by index only) legitimately re-charges the resident key; charge, callback and C06 clauses are not decided there (counted)"],
+    ),
+    "C19": dict(
+        stages=[dict(engine="differential", shards=dict(quick=4, thorough=16), args=["--quick-n", "50", "--thorough-n", "600"]),
+                ho("C19", q=24, t=300, flavors=ASYNC_ALL), ls("C19", q=100, t=1500, flavors=ASYNC_ALL),
+                dict(engine="waitrace", shards=dict(quick=2, thorough=8), args=["--quick-n", "80", "--thorough-n", "1500", "--flavors", ASYNC_ALL]),
+                dict(engine="close", shards=dict(quick=2, thorough=8), args=["--quick-n", "120", "--thorough-n", "2500", "--flavors", ASYNC_ALL])],
+        rule="(i) differential: one scripted history run on Cache and on AsyncCache (tokio multi-thread, tokio current-thread, async-std, thread-per-task), compared observation by observation; "
+             "(ii) the hostile, lockstep, termination and close monitors re-run against AsyncCache on the four executors",
+        clauses=["return values, look-ups, remaining TTLs (exact), callback multisets, metrics (gets_kept+gets_dropped as a sum), snapshots, histogram equal step by step",
+                 "every async trace satisfies the reference model on its own", "every violation of another property observed on an async flavour counts against C19"],
+        minimum=dict(quick=dict(diff_observations_compared=20000, ho_histories=60, ls_histories=300)),
+        assumptions=["ample capacity in the differential runs: two instances never share sketch seeds or HashMap iteration order, so which victim is sampled is instance specific"],
+        cross_property=True,
+    ),
+    "C20": dict(
+        stages=[dict(engine="grid", shards=dict(quick=4, thorough=16))],
+        rule="configuration grid: num_counters 0..70,100,1000 x max_cost {0,1,2,10,-1,-100,2^62} x buffer_size {0,1,2,8} x buffer_items {0,1,2,64} x metrics x ignore_internal_cost x cleanup {1 ms, 1 s, default}; "
+             "quick: every num_counters with rotating partners plus every triple of the small parameters; thorough: full product; flavours sync / tokio multi-thread / thread-per-task (thorough: all five)",
+        clauses=["zero num_counters / max_cost / buffer size => the named error", "otherwise: workload of inserts (boundary costs), look-ups across aging resets, removes, TTL expiry, evictions, clear",
+                 "no panic on any thread (process-wide panic hook)", "both workers alive until close", "wait() returns Ok", "a final insert is still handled", "close ends both workers"],
+        minimum=dict(quick=dict(lc_grid_scenarios=400)),
         assumptions=[],
     ),
 }
